@@ -47,7 +47,7 @@ def make_items(ctx, only=None):
     ps = pair_status(ctx)
     # the hand-made workloads wl000-wl003 stand in for generated ones (as they always did); later ones (wlx..) come on top,
     # so that no generated workload is lost
-    for i in list(range(NWL[ctx.tier])) + [1004, 1005, 1007]:
+    for i in list(range(NWL[ctx.tier])) + [1004, 1005, 1007, 1008]:
         name = 'wl%03d' % i if i < 1000 else 'wlx%02d' % (i - 1000)
         if only and name != only:
             continue
@@ -80,6 +80,13 @@ def make_items(ctx, only=None):
             wl = {'files': [{'path': 'usr/lib64/libalias.so', 'v1': 'alias_v0', 'v2': 'alias_v1'}, {'path': 'usr/lib64/libmathx.so', 'v1': 'mathx_v0', 'v2': None},
                             {'path': 'usr/lib64/libtiny.so', 'v1': 'tiny_v0', 'v2': 'tiny_v1'}, {'path': 'usr/lib64/libcxx.so', 'v1': None, 'v2': 'cxx_v2'}],
                   'format': 'deb' if K.have_deb() else 'tar.gz', 'abignore': 'first', 'options': ['--no-default-suppression'], 'splitdbg': True}   # Debian packages with -dbg packages
+        if i == 1008:
+            # a directory reachable under two names in the first package only (lib64 -> lib), two real directories in the second:
+            # one file of the first package is matched with two different files of the second, and both pairs count
+            wl = {'files': [{'path': 'lib/libshapes.so', 'v1': 'shapes_v0', 'v2': 'shapes_v0'}, {'path': 'lib64/libshapes.so', 'v1': 'shapes_v0', 'v2': 'shapes_v2'},
+                            {'path': 'lib/libmathx.so', 'v1': 'mathx_v0', 'v2': 'mathx_v0'}, {'path': 'lib64/libmathx.so', 'v1': 'mathx_v0', 'v2': 'mathx_v1'},
+                            {'path': 'libtiny.so', 'v1': 'tiny_v0', 'v2': 'tiny_v0'}],
+                  'format': 'dir', 'abignore': 'none', 'options': ['--no-default-suppression'], 'dirlink': {'link': 'lib64', 'dir': 'lib', 'text': 'lib', 'side': 'first'}}
         if len(set(K.side_prefixes(wl))) != 1:
             raise C.InfraError('workload %s leaves the region the reference model is valid in: ELF directory prefixes %r' % (name, K.side_prefixes(wl)))
         it = c31.prepare_item(ctx, name, wl, variant='plain')
